@@ -70,8 +70,9 @@ class Check:
     # ---- finishing ---------------------------------------------------------------
     def finish(self):
         from .facts import AnalysisBroken
-        # vacuity floors
-        for rid, floor in self.floors.items():
+        # vacuity floors (a rule that found violations is not vacuous: report those instead)
+        has_failed = any(not o.ok for o in self.obls)
+        for rid, floor in ([] if has_failed else self.floors.items()):
             n = sum(1 for o in self.obls if o.rule == rid)
             if n < floor:
                 raise AnalysisBroken('rule %s matched %d instance(s), floor is %d — the rule '
